@@ -16,16 +16,16 @@
 (* the orchestrator (known re-anchored heights are listed findings).          *)
 EXTENDS Integers, Sequences, FiniteSets, TraceLib
 
-VARIABLES l, canon, canonExport, nblocks, nimports
+VARIABLES l, canon, canonExport, canonImp, nblocks, nimports
 
 Ev == Log[l + 1]
 
 DiffMods(a, b) == {m \in DOMAIN a \cup DOMAIN b : m \notin DOMAIN a \/ m \notin DOMAIN b \/ a[m] # b[m]}
 
-TraceInit == /\ HWInit /\ l = 0 /\ canon = <<>> /\ canonExport = <<>> /\ nblocks = 0 /\ nimports = 0
+TraceInit == /\ HWInit /\ l = 0 /\ canon = <<>> /\ canonExport = <<>> /\ canonImp = <<>> /\ nblocks = 0 /\ nimports = 0
 
 TCfg == /\ l < NLines /\ Ev.e = "cfg"
-        /\ UNCHANGED <<canon, canonExport, nblocks, nimports>>
+        /\ UNCHANGED <<canon, canonExport, canonImp, nblocks, nimports>>
 
 \* first replica to report a block defines the reference; everybody else must match
 TBlock == /\ l < NLines /\ Ev.e = "block"
@@ -38,6 +38,14 @@ TBlock == /\ l < NLines /\ Ev.e = "block"
                   /\ Chk("block height identical", Ev.h = canon[Ev.blk].h)
                   /\ Chk("committed state (app hash) identical", Ev.role = "importer" \/ Ev.app = canon[Ev.blk].app)
                   /\ UNCHANGED canon
+          \* importers cannot share the app hash of the exporter (different store history), but two nodes
+          \* initialised from the SAME export must commit bit-identical state
+          /\ IF Ev.role = "importer"
+             THEN IF Ev.blk \notin DOMAIN canonImp
+                  THEN canonImp' = [b \in DOMAIN canonImp \cup {Ev.blk} |-> IF b = Ev.blk THEN Ev.app ELSE canonImp[b]]
+                  ELSE /\ Chk("two importers of one export commit identical state (app hash)", Ev.app = canonImp[Ev.blk])
+                       /\ UNCHANGED canonImp
+             ELSE UNCHANGED canonImp
           /\ nblocks' = nblocks + 1
           /\ UNCHANGED <<canonExport, nimports>>
 
@@ -50,16 +58,16 @@ TExport == /\ l < NLines /\ Ev.e = "export"
               ELSE /\ Chk("exporter's final export known", Ev.blk \in DOMAIN canonExport)
                    /\ PrintT(<<"IMPORT-DIFF", "final", Ev.blk, DiffMods(Ev.mods, canonExport[Ev.blk])>>)
                    /\ UNCHANGED canonExport
-           /\ UNCHANGED <<canon, nblocks, nimports>>
+           /\ UNCHANGED <<canon, canonImp, nblocks, nimports>>
 
 TImported == /\ l < NLines /\ Ev.e = "imported"
              /\ Chk("import point was exported by a replica", Ev.blk \in DOMAIN canonExport)
              /\ PrintT(<<"IMPORT-DIFF", "at-import", Ev.blk, DiffMods(Ev.mods, canonExport[Ev.blk])>>)
              /\ nimports' = nimports + 1
-             /\ UNCHANGED <<canon, canonExport, nblocks>>
+             /\ UNCHANGED <<canon, canonExport, canonImp, nblocks>>
 
 TraceNext == (TCfg \/ TBlock \/ TExport \/ TImported) /\ l' = l + 1
-TraceSpec == TraceInit /\ [][TraceNext]_<<l, canon, canonExport, nblocks, nimports>>
+TraceSpec == TraceInit /\ [][TraceNext]_<<l, canon, canonExport, canonImp, nblocks, nimports>>
 Mark == HWMark(l)
 Accepted == HWAccepted
 =============================================================================
